@@ -28,7 +28,8 @@ CONSTANTS NReaders,   \* number of reader goroutines
           FIXED,      \* repaired design (TRUE) or pinned behaviour (FALSE)
           WithCloser, WithStable,
           EarlyPublish, \* mutant: commitIdx published before fsync
-          Record       \* record the passage of hook sites in `sched` (schedule export; simulation only)
+          Record,      \* record the passage of hook sites in `sched` (schedule export only)
+          CoverProcs   \* coverage-directed export: only co-locations involving one of these processes ({} = all)
 
 Readers == 1..NReaders
 WriterId == 10
@@ -1678,6 +1679,23 @@ StepOf(p) == IF p = WriterId THEN Writer ELSE IF p = RotId THEN Rot ELSE IF p = 
 Mid == {p \in ProcSet : pc[p] \notin GateLabels /\ pc[p] # "Done" /\ ENABLED StepOf(p)}
 EagerNext == IF Mid # {} THEN \E p \in Mid : StepOf(p) ELSE Next
 EagerSpec == Init /\ [][EagerNext]_vars
+
+(* Coverage-directed schedule export.  Run EagerSpec breadth-first with VIEW View (the recorded    *)
+(* schedule is not part of the view, so TLC explores each control/data state once and `sched` is   *)
+(* the shortest gate order leading to it) and -workers 1; CoverPairs prints the schedule prefix of  *)
+(* the first state in which two processes are found together at a pair of labels not seen before:  *)
+(* one witness per reachable co-location of two goroutines (e.g. "writer parked in                 *)
+(* awaitRotationLocked while Close is about to take the lock").                                    *)
+CoverInit == Init /\ TLCSet(7, {})
+CoverSpec == CoverInit /\ [][EagerNext]_vars
+Interesting(p, q) == CoverProcs = {} \/ p \in CoverProcs \/ q \in CoverProcs
+PairKeys == {<<p, pc[p], q, pc[q]>> : p \in ProcSet, q \in ProcSet} 
+CoverPairs ==
+  LET keys == {k \in PairKeys : k[1] < k[3] /\ Interesting(k[1], k[3]) /\ k[2] # "Done" /\ k[4] # "Done"}
+      fresh == keys \ TLCGet(7)
+  IN IF fresh = {} THEN TRUE
+     ELSE /\ TLCSet(7, TLCGet(7) \cup fresh)
+          /\ PrintT(<<"SCHED", ToJson([sched |-> sched, prog |-> Prog, fresh |-> Cardinality(fresh)])>>)
 
 (* schedule export (simulation with Record = TRUE) *)
 EmitSched == AllDone => PrintT(<<"SCHED", ToJson([sched |-> sched, prog |-> Prog])>>)
